@@ -293,7 +293,9 @@ def binop(ctx, op, a, b, inplace=False):
     if isinstance(op, ast.Mult):
         return mk(ta * tb, nk)
     if isinstance(op, ast.Div):
-        if not ctx.spec_mode and ctx.branch(tb == 0):
+        if ctx.ghost.get("assume_nonzero_divisors") and not ctx.spec_mode:
+            ctx.assume(mk(tb != 0, "bool"))
+        elif not ctx.spec_mode and ctx.branch(tb == 0):
             ctx.raise_exc("ZeroDivisionError", ("division by zero",))
         ra, rb = term(a, "real"), term(b, "real")
         return mk(ra / rb, "real")
